@@ -5,7 +5,8 @@
    receiver is never lapped (backlog below the capacity at every receive); a lapped receiver
    reports it before anything newer is delivered and restarts behind everything transmitted so far.
    Definitions only; theorems in Proofs/LossyProofs.v. *)
-Require Import V.Base.MachineInt V.Model.Broadcast.
+Require Import V.Base.MachineInt.
+Require Import V.Model.Broadcast.
 Open Scope Z_scope.
 
 (* a record of the stream: padding records have type -1 and no bytes, their length field is the
